@@ -60,6 +60,7 @@ def run(ctx) -> None:
   ctx.rule('R4', 'all PRNG keys derive from the seed by split; no key is consumed twice', 6)
   ctx.rule('R7', 'scores are reported as the score function returned them: untouched on the way into the best-results table, one key for all evaluations', 2)
   ctx.rule('R6', 'eagle pool: a slot\'s features and reward are always replaced together (same index, same result)', 1)
+  ctx.rule('R9', 'the optimisation loop runs ceil(max_evaluations / batch) steps: at least one, and enough to cover the budget (finite model)', 2)
   ctx.rule('R8', 'eagle: the pool size handed to the strategy is a whole number of batches (finite model); prior features are '
            'dropped only when they are None', 2)
   ctx.rule('R5', 'the scored prior points reach the best-results table (never worse than the best prior)', 1)
@@ -71,6 +72,42 @@ def run(ctx) -> None:
   r6_pool_pairing(ctx)
   r7_scores_as_given(ctx)
   r8_pool_geometry(ctx)
+  r9_step_count(ctx)
+
+
+# ----------------------------------------------------------------------- R9
+def r9_step_count(ctx) -> None:
+  from vzstatic import pathcond
+  vb = ctx.index.module_of_file(VB)
+  call = vb.classes['VectorizedOptimizer'].methods['__call__']
+  g = cfgmod.CFG(call.node)
+  rd = flow.ReachingDefs(g)
+  sites = []
+  for nd in g.nodes:
+    for c in flow.node_calls(nd):
+      d = dotted(c.func) or ''
+      if d.endswith('fori_loop') and len(c.args) >= 2:
+        sites.append((nd, c.args[1], 'fori_loop upper bound'))
+    if nd.kind == 'for' and isinstance(nd.ast.iter, ast.Call) and dotted(nd.ast.iter.func) == 'range' and len(nd.ast.iter.args) == 1 \
+        and any('_optimization_one_step' in unparse(x, 0) for x in nd.ast.body):
+      sites.append((nd, nd.ast.iter.args[0], 'python loop range'))
+  if len(sites) < 2:
+    raise AnalysisError(f'VectorizedOptimizer.__call__: step-count sites found: {len(sites)} (fori_loop and the python loop)')
+  for nd, e, what in sites:
+    expr = flow.unfold(e, nd, g, rd)
+    bad = None
+    try:
+      for budget in (1, 5, 20, 24, 25, 26, 50, 75000):
+        for batch in (1, 8, 25):
+          got = pathcond.neval(expr, {'self.max_evaluations': budget, 'self.suggestion_batch_size': batch})
+          want = -(-budget // batch)
+          if got != want and bad is None:
+            bad = f'max_evaluations={budget}, suggestion_batch_size={batch}: {got} step(s), ceil gives {want}'
+    except pathcond.NoValue as ex:
+      raise AnalysisError(f'VectorizedOptimizer.__call__: step count `{unparse(expr, 60)}` cannot be evaluated ({ex})')
+    ctx.check(bad is None, 'R9', f'VectorizedOptimizer.__call__: {what}', e, f'`{unparse(expr, 60)}` == ceil(max_evaluations / batch) on the finite model',
+              f'`{unparse(expr, 60)}`: {bad} - with a budget below one batch nothing is ever evaluated and never-scored placeholders are returned; '
+              'otherwise the last part of the budget (where the oldest priors are revisited) is lost', construct=f'step-count:{what}', func=call.qualname)
 
 
 # ----------------------------------------------------------------------- R8
